@@ -12,6 +12,8 @@
 //	        and from several goroutines, further requests, Close                            (pool_test.go)
 //	pull    the child process `desync --config <cfg> pull - - - <store>` over pipes: store directory with
 //	        chunks in the configured format, the other format, both, neither or corrupt x config variants (pull_test.go)
+//	srvproc the commands `desync chunk-server` / `index-server` as child processes in front of a gated upstream:
+//	        overlapping client requests, answers released in generated order, options --log/-u/verified reads (srvproc_test.go)
 //	proto   desync.Protocol clients against desync.NewProtocolServer over io.Pipe pairs; returned
 //	        chunks are held and consumed later through their storage form   (proto_test.go, held_test.go)
 package c14
@@ -37,12 +39,17 @@ type Case struct {
 	SSH    *SSHCase    `json:"ssh,omitempty"`
 	Pool   *PoolCase   `json:"pool,omitempty"`
 	Pull   *PullCase   `json:"pull,omitempty"`
+	Srv    *SrvCase    `json:"srv,omitempty"` // mode srvproc (srvproc_test.go)
 }
 
 func genCase(t *rapid.T) Case {
 	if hx.Thorough() && fakessh.HavePull() && rapid.IntRange(0, 99).Draw(t, "ssh") == 0 {
 		sc := genSSH(t)
 		return Case{Mode: "ssh", SSH: &sc}
+	}
+	if pullBin() != "" && rapid.IntRange(0, 29).Draw(t, "srvproc") == 0 {
+		sc := genSrv(t)
+		return Case{Mode: "srvproc", Srv: &sc}
 	}
 	switch m := rapid.IntRange(0, 19).Draw(t, "mode"); {
 	case m < 7:
@@ -83,6 +90,8 @@ func run(c Case) (o hx.Outcome) {
 		o = runPool(*c.Pool)
 	case c.Mode == "pull" && c.Pull != nil:
 		o = runPullCLI(*c.Pull)
+	case c.Mode == "srvproc" && c.Srv != nil:
+		o = runSrvProc(*c.Srv)
 	default: // a hand-edited replay file without a sub-case: nothing to run
 		o.Desc = map[string]any{"mode": c.Mode, "empty": true}
 		return o
@@ -103,6 +112,7 @@ var spec = &hx.Spec[Case]{
 		"every chunk a session returned is held and consumed later (at generated points and after the history) through a compressed and an uncompressed HTTP chunk server, a cache writing to a compressed LocalStore and an uncompressed LocalStore. " +
 		"(sshpool) one RemoteSSH store over a pool of n in 1..3 in-process casync sessions (stand-in peer that keeps the session open after MISSING): history of <= 12 GetChunk/HasChunk for chunks answered present/missing/invalid/garbage/abort/dead-peer, issued sequentially or by 2..4 goroutines, then 1..4 further sequential requests and Close; fixed cases n x failing answer x {sequential, 3 goroutines} with n+1 failures before a present chunk. " +
 		"(pull) child process `desync --config <cfg> pull - - - <store>` over pipes, client side desync.Protocol: config in {no entry, uncompressed entry keyed by the served path, uncompressed entry keyed by another path, compressed entry} x 1..4 chunks held in the configured format / the other format / both / neither / corrupt x <= 5 requests (fresh child after every answer that is not a chunk); about 1 case in 80 plus 4 fixed cases. " +
+		"(srvproc) child process `desync chunk-server|index-server -s <gated upstream HTTP store of the harness> -l <addr> -e 0 [--log <file>|-] [-u] [--skip-verify-read=false]`: 2..4 objects present/missing/failing upstream, 2..4 GET/HEAD client requests started so that all overlap inside the server (each after the previous one's upstream request has arrived), upstream answers released in a generated order; about 1 case in 30. " +
 		"non-trivial = matrix case in which compression settings differ between at least two of the three hops, script with >= 1 transient failure followed by a terminal response within the attempts made, " +
 		"index history touching a present and an absent name, protocol history with a present and a non-present request, a broken connection, or a held chunk followed on its session by a different reply that is not larger, ssh pool history with more failing answers than sessions, pull case whose config names an uncompressed store; distinct by configuration + history shape",
 	Assumptions: []string{
@@ -137,6 +147,8 @@ var spec = &hx.Spec[Case]{
 		"script:kind:reset", "script:kind:short", "script:kind:5xx",
 		"script:m:getchunk", "script:m:haschunk", "script:m:storechunk", "script:m:getindex", "script:m:storeindex",
 		"proto:present", "proto:missing", "proto:corrupt", "proto:break:close", "proto:break:cut", "proto:store:mem", "proto:store:local", "proto:store:local-unc",
+		"mode:srvproc", "srvproc:chunk", "srvproc:index", "srvproc:all-requests-overlapped", "srvproc:overlapped:log-on", "srvproc:log=off", "srvproc:log=file", "srvproc:log=stdout", "srvproc:server-converts",
+		"srvproc:state:present", "srvproc:state:missing", "srvproc:state:failing",
 		"mode:pull", "pull:config-default", "pull:config-uncompressed", "pull:config-other-path", "pull:config-compressed-entry",
 		"pull:present", "pull:missing", "pull:other-format-only", "pull:corrupt",
 		"pull:have:both-formats", "pull:have:configured-format-only", "pull:have:other-format-only", "pull:have:none", "pull:have:corrupt",
